@@ -182,7 +182,7 @@ def to_pairs(g, rec):
         r = rec['sr'][str(int(sr))]
         td = rec['taxdepth']
         impl = [[[p, mn, mx] for p, mn, mx in r['nodes']],
-                [[com, low, (len(sp[1]) if sp[0] == 'ok' else -1)] for com, low, sp in r['pairs']],
+                [[com, low, (len(sp[1]) if sp[0] == 'ok' else -1), (sp[1] if sp[0] == 'ok' else -1)] for com, low, sp in r['pairs']],
                 td[1] if td[0] == 'ok' else -9, rec['roots'], rec['leaves']]
         out.append(([graph, hypo, V, sr, rec['vp']], impl))
     return out
